@@ -102,4 +102,18 @@ MUTANTS = [
     ('c03-handler-skipped-in-replay', ['C03'], TR, "        if data_handler:\n            try:\n                value = data_handler.prepare_output_for_recording",
      "        if data_handler and not self.in_playback_mode:\n            try:\n                value = data_handler.prepare_output_for_recording"),
     ('c03-args-by-reference-kwargs-shared', ['C03'], TR, "value = {'args': list(args), 'kwargs': kwargs}", "value = {'args': list(args[:1]), 'kwargs': kwargs}"),
+    # ---- C02
+    ('c02-falsy-substitute-ignored', ['C02'], TR, "if value_when_missing is not None:", "if value_when_missing:"),
+    ('c02-substitute-before-run-original', ['C02'], TR,
+     "                        if run_intercepted_when_missing:\n                            # Run the original method when content was missing in recording\n                            return func(*args, **kwargs)\n                        if value_when_missing is not None:\n                            if callable(value_when_missing):\n                                return value_when_missing(*args, **kwargs)\n                            return value_when_missing\n",
+     "                        if value_when_missing is not None:\n                            if callable(value_when_missing):\n                                return value_when_missing(*args, **kwargs)\n                            return value_when_missing\n                        if run_intercepted_when_missing:\n                            return func(*args, **kwargs)\n"),
+    ('c02-fallbacks-ignored-for-fn', ['C02'], TR, "                    if callable(fallback_aliases):\n                        fallback_aliases_list = fallback_aliases(*args, **kwargs)", "                    if callable(fallback_aliases):\n                        fallback_aliases_list = []"),
+    ('c02-default-even-when-failing', ['C02'], TR, "                        if fail_on_no_recorded_result:\n                            raise\n", ""),
+    ('c02-operation-records-during-replay', ['C02'], TR, "                if self.in_playback_mode:\n                    return self._execute_operation_func(func, args, kwargs)\n\n                if not self.recording_enabled:",
+     "                if self.in_playback_mode and not self.recording_enabled:\n                    return self._execute_operation_func(func, args, kwargs)\n\n                if not self.recording_enabled:"),
+    ('c02-callable-substitute-not-called', ['C02'], TR, "                            if callable(value_when_missing):\n                                return value_when_missing(*args, **kwargs)\n", ""),
+    ('c02-fallback-last-wins', ['C02'], TR, "interception_key = next((x for x in possible_keys if x in recording_keys), None)", "interception_key = next((x for x in reversed(possible_keys) if x in recording_keys), None)"),
+    ('c02-missing-output-result-runs-body', ['C02'], TR, "                        if fail_on_no_recorded_result:\n                            raise\n                        return default_result_when_not_recorded", "                        if fail_on_no_recorded_result:\n                            raise\n                        return func(*args, **kwargs)"),
+    ('c02-run-original-twice', ['C02'], TR, "                            # Run the original method when content was missing in recording\n                            return func(*args, **kwargs)", "                            func(*args, **kwargs)\n                            return func(*args, **kwargs)"),
+    ('c02-play-saves-recording-copy', ['C02'], TR, "        recording = self.tape_cassette.get_recording(recording_id)\n        self._playback_recording = recording", "        recording = self.tape_cassette.get_recording(recording_id)\n        if self.recording_enabled:\n            self.tape_cassette.save_recording(recording)\n        self._playback_recording = recording"),
 ]
